@@ -32,17 +32,23 @@ func checkC10(c *Ctx) error {
 	k.E.AllowPkg = func(p string) bool {
 		return allow(p) || p == "go/types" || p == "go/constant" || p == "sync/atomic" || p == "go/version" || p == "internal/gover" || p == "internal/types/errors" || p == "math/big"
 	}
-	np := 2
+	type bb struct{ np, nx int }
+	bounds := []bb{{2, 3}}
 	if c.Thorough() {
-		np = 3
+		bounds = []bb{{2, 3}, {3, 1}}
 	}
+	np := bounds[len(bounds)-1].np
 	fn := k.Pkg.Func("verifHarnessBuild")
 	if fn == nil {
 		return fmt.Errorf("harness missing")
 	}
 	var oblig, reached int
 	seen := map[string]bool{}
-	res := k.E.Run(fn, func(ps *symx.PathState) []any { return []any{symx.IntArg(np)} }, nil)
+	var res []symx.PathResult
+	for _, b := range bounds {
+		b := b
+		res = append(res, k.E.Run(fn, func(ps *symx.PathState) []any { return []any{symx.IntArg(b.np), symx.IntArg(b.nx)} }, nil)...)
+	}
 	for _, r := range res {
 		if !strings.HasPrefix(r.Outcome, "ok") {
 			c.Inconclusive("Build harness: path outcome " + r.Outcome)
